@@ -914,6 +914,11 @@ func (dsc *dataStoreCommand) restore(keyName, serializedData string, ttl int64, 
 		if absttl {
 			expiration = time.UnixMilli(ttl)
 		} else {
+			if ttl > math.MaxInt64/int64(time.Millisecond) || ttl < math.MinInt64/int64(time.Millisecond) {
+				// the lifetime does not fit into the clock's range
+				output.data = respErrorString("ERR invalid expire time in 'restore' command")
+				return
+			}
 			expiration = time.Now().Add(time.Millisecond * time.Duration(ttl))
 		}
 	} else {
